@@ -894,3 +894,50 @@ Proof.
   split; [reflexivity|]. cbn [new_reader r_state].
   rewrite <- (set_frag_init _ Hc). apply st_frag_set.
 Qed.
+
+(* ################################################################## state level: Discard on a drained, unfragmented frame
+   (where Read leaves the Reader when it reports ErrInvalidUTF8 at the very end of a message:
+   frame still set, raw.N = 0, State not fragmented).  For EVERY such Reader state, whatever its
+   history, configuration and source: Discard returns nil, is exactly reset(), and does not touch the
+   source. *)
+Lemma read_full_aux_0 g cs t : read_full_aux 0 g cs t = (([], None), cs).
+Proof. destruct cs; reflexivity. Qed.
+
+Theorem discard_drained_is_reset : forall n r, r_rawN r = 0 -> st_fragmented (r_state r) = false ->
+  discard (S n) r = (None, reset r) /\ r_src (reset r) = r_src r /\ at_rest (reset r).
+Proof.
+  intros n r H0 Hf. split; [|split; [reflexivity|apply at_rest_reset, Hf]].
+  destruct r as [[cs t] st sk ch mx ex cm cb op fr rn mk ky cp uw us ua lg]. rsimpl. subst rn.
+  cbn [discard]. unfold raw_drain, read_full. rsimpl. cbn [chunks tl]. rewrite read_full_aux_0.
+  rsimpl. rewrite Hf. reflexivity.
+Qed.
+
+(* ################################################################## the spec's messages: split at message boundaries *)
+(* a well-formed piece [a] of a stream (it ends at a message boundary) contributes its own
+   messages, whatever follows; and what follows is judged as if it stood alone *)
+Theorem messages_of_app : forall c a b, Forall wf_sframe a -> wire_ok c a ->
+  messages_of c (a ++ b) = messages_of c a ++ messages_of c b /\ (wire_ok c (a ++ b) <-> wire_ok c b).
+Proof.
+  intros c a b Hwf Hok. unfold wire_ok, messages_of in *. set (cn := no_utf8 c) in *.
+  destruct (spec_prefix cn a 0%nat None [] Hwf I (or_introl Hok)) as (openm' & _ & _ & Hout & Happ & _).
+  rewrite Hok in Hout. destruct openm' as [m|]; [discriminate Hout|].
+  rewrite (Happ b), spec_run_evs_pre. cbn [pre_evs sr_events sr_out]. split.
+  - rewrite filter_app, (proj1 (spec_k cn b (0 + length a) 0%nat None [])). reflexivity.
+  - split; apply (proj2 (spec_k cn b _ _ None [])).
+Qed.
+
+(* ONE structured message (extension attached): it is its own single message, with the concatenated payload *)
+Lemma messages_of_message c rsv0 op k0 p0 l : c_ext c = true -> (op = 1 \/ op = 2) ->
+  (rsv0 = 0 \/ st_extended (c_state c) = true) ->
+  let fs := msg_frames_rsv rsv0 op k0 p0 l in
+  Forall wf_sframe fs -> Forall (fun f => mask_ok (c_state c) f = true /\ too_large c f = false) fs ->
+  Forall (fun x => Forall (fun f => ctl_ok f = true) (fr_ctl x)) l ->
+  wire_ok c fs /\ messages_of c fs = [mkEv op (msg_payload p0 l) false (rsv1_bit rsv0)].
+Proof.
+  intros Hext Hop Hrsv fs Hwf Hfits Hctls. unfold wire_ok, messages_of. set (cn := no_utf8 c).
+  destruct (structured cn rsv0 op k0 p0 l Hwf Hfits Hctls) as (Hp0 & Hfit & Hokx). subst fs.
+  rewrite (spec_message cn Hext rsv0 op k0 p0 l Hop Hrsv Hp0 Hfit Hokx ltac:(intros X; discriminate X)).
+  cbn [sr_out sr_events]. split; [reflexivity|].
+  rewrite filter_app. cbn [filter ev_inter negb]. unfold msg_ctl_events_c.
+  match goal with |- filter _ (map ?g ?x) ++ _ = _ => induction x as [|y ys IHy]; [reflexivity|exact IHy] end.
+Qed.
